@@ -1500,7 +1500,7 @@ class CodeGen:
         ref = ArrayRef(val_type, origin=origin_bubble.value, length=length_bubble.value)
         self.allocated_arrays.append(ref)
         self.stack = cur
-        if static_size: self.checkpoints.update(self.stack.static_size)
+        if static_size: self.checkpoints.update(self.stack.static_size + self.pending_array_size)
         assert len(self.allocated_arrays) == self.stack.array_num
         return ValueBubble(bubble.prev, cur, ref)
 
